@@ -14,9 +14,121 @@ def pSelCfg : P SelCfg := do
 
 def bits (f : Nat → Bool) (n : Nat) : String := String.ofList ((List.range n).map fun i => if f i then '1' else '0')
 
+structure DrvState where
+  tbls : Array (List PteEntry) := #[]
+  strs : Array (List TraceString) := #[]
+  flds : Array (List HlogField) := #[]
+
+def pPte : P PteEntry := do
+  let pattern ← pText; let fmt ← pText; let params ← pList pNum
+  pure { pattern, fmt, params }
+def pTraceString : P TraceString := do
+  let hash ← pNum; let fmt ← pText; let location ← pText
+  pure { hash, fmt, location }
+def pField : P HlogField := do
+  let n ← pText; let sz ← pNum
+  pure (n, sz)
+
+def outOptLines (o : Option (List Text)) : String :=
+  match o with
+  | some ls => "ok " ++ outLines ls
+  | none => "unsupported format"
+
+def tblSupported (t : List PteEntry) : Bool := t.all (fun e => patternSupported e.pattern)
+
+/-- requests that read or extend the driver state (tables are sent once and referred to by index) -/
+def handleSt (st : DrvState) (op : String) : P (DrvState × String) :=
+  match op with
+  | "deftbl" => do
+      let t ← pList pPte; pEnd
+      pure ({ st with tbls := st.tbls.push t }, s!"ok {st.tbls.size}")
+  | "defstr" => do
+      let t ← pList pTraceString; pEnd
+      pure ({ st with strs := st.strs.push t }, s!"ok {st.strs.size}")
+  | "deffld" => do
+      let t ← pList pField; pEnd
+      pure ({ st with flds := st.flds.push t }, s!"ok {st.flds.size}")
+  | "ilog" => do
+      let i ← pNum; let b ← pBytes; pEnd
+      let t := st.tbls[i]!
+      if !tblSupported t then pure (st, "unsupported pattern") else
+      pure (st, outOptLines (parseIlog t b))
+  | "ilogspec" => do
+      -- entries (ts seq pte)* and a tail: encoded bytes, model output, spec output
+      let i ← pNum
+      let es ← pList (do let ts ← pNum; let seq ← pNum; let pte ← pNum; pure ({ ts, seq, pte } : IlogEntry))
+      let tail ← pBytes; pEnd
+      let t := st.tbls[i]!
+      if !tblSupported t then pure (st, "unsupported pattern") else
+      let b := es.flatMap IlogEntry.enc ++ tail
+      match parseIlog t b, specIlog t es with
+      | some m, some sp => pure (st, "ok " ++ outBytes b ++ " " ++ outLines m ++ " " ++ outLines sp)
+      | _, _ => pure (st, "unsupported format")
+  | "ptematch" => do
+      let i ← pNum; let pte ← pNum; pEnd
+      let t := st.tbls[i]!
+      if !tblSupported t then pure (st, "unsupported pattern") else
+      match getEntry t pte with
+      | none => pure (st, "ok 0")
+      | some e => match pteMessage e pte with
+        | some m => pure (st, "ok 1 " ++ outText e.pattern ++ " " ++ outText m)
+        | none => pure (st, "unsupported format")
+  | "hlog" => do
+      let i ← pNum; let b ← pBytes; pEnd
+      let f := st.flds[i]!
+      if f.any (fun x => x.2 = 0) then pure (st, "err assert") else
+      pure (st, "ok " ++ outLines (parseHlog f b) ++ " " ++ outLines (specHlogFields f b))
+  | "trace" => do
+      let i ← pNum; let b ← pBytes; pEnd
+      pure (st, outOptLines (parseTrace st.strs[i]! b))
+  | "tracespec" => do
+      -- abstract header + well-formed entries (+ pad bytes) + trailing bytes: encoding, model output, spec output
+      let i ← pNum
+      let ver ← pNum; let hdrLen ← pNum; let timeFlg ← pNum; let endianFlg ← pNum
+      let comp ← pBytes; let reserved ← pBytes; let size ← pNum; let timesWrap ← pNum; let nextFree ← pNum
+      let es ← pList (do
+        let tbh ← pNum; let tbl ← pNum; let tag ← pNum; let hash ← pNum; let line ← pNum; let data ← pBytes
+        let pad ← pBytes
+        pure (({ tbh, tbl, length := data.length, tag, hash, line, data } : TraceEntry), pad))
+      let trailing ← pBytes; pEnd
+      let h : TraceHeaderRaw := { ver, hdrLen, timeFlg, endianFlg, comp, reserved, size, timesWrap, nextFree }
+      let b := h.enc ++ es.flatMap (fun (e, pad) => e.enc pad) ++ trailing
+      match parseTrace st.strs[i]! b, specTrace st.strs[i]! h (es.map (·.1)) with
+      | some m, some sp => pure (st, "ok " ++ outBytes b ++ " " ++ outLines m ++ " " ++ outLines sp)
+      | _, _ => pure (st, "unsupported format")
+  | "tracestr" => do
+      let i ← pNum; let h ← pNum; pEnd
+      match getTraceString st.strs[i]! h with
+      | none => pure (st, "ok 0")
+      | some t => pure (st, "ok 1 " ++ outNum t.hash ++ " " ++ outText t.fmt ++ " " ++ outText t.location)
+  | "dump" => do
+      let i ← pNum; let j ← pNum; let b ← pBytes; pEnd
+      let t := st.tbls[i]!
+      if !tblSupported t then pure (st, "unsupported pattern") else
+      let offs := bufferOffsets b
+      let regs := ilogRegion b offs :: traceRegions b offs
+      match parseDumpData t st.strs[j]! b with
+      | some ls => pure (st, "ok " ++ outLines ls ++ " " ++ outList outBytes regs)
+      | none => pure (st, "unsupported format")
+  | "dumpfile" => do
+      let i ← pNum; let j ← pNum; let ls ← pList pText; pEnd
+      let t := st.tbls[i]!
+      if !tblSupported t then pure (st, "unsupported pattern") else
+      pure (st, outOptLines (parseDumpFile t st.strs[j]! ls))
+  | _ => failure
+
 def handle (op : String) : P String :=
   match op with
   | "ping" => pure "ok pong"
+  | "fmt" => do
+      let f ← pText; let args ← pList pNum; pEnd
+      match pyFmt f args with
+      | .ok t => pure ("ok 1 " ++ outText t)
+      | .error => pure "ok 0"
+      | .unsupported => pure "unsupported format"
+  | "timestamp" => do
+      let t ← pNum; pEnd
+      pure ("ok " ++ outText (formatTimestamp t))
   | "hexdump" => do
       let l ← pNum; let c ← pNum; let b ← pBytes; pEnd
       if 1 ≤ l ∧ l ≤ 256 ∧ 1 ≤ c ∧ c ≤ 256 then pure ("ok " ++ outLines (hexdump l c b))
@@ -38,24 +150,27 @@ def handle (op : String) : P String :=
       pure ("ok " ++ bits (fun sv => considerPEL sv af c) 256 ++ " " ++ bits (fun sv => selected sv af c) 256)
   | _ => pure ("err unknown-op " ++ op)
 
-def handleLine (line : String) : String :=
+def handleLine (st : DrvState) (line : String) : DrvState × String :=
   match tokenize line with
   | .word op :: rest =>
-    match (handle op).run rest with
-    | some (r, _) => r
-    | none => "err bad-request"
-  | _ => "err bad-request"
+    match (handleSt st op).run rest with
+    | some ((st', r), _) => (st', r)
+    | none =>
+      match (handle op).run rest with
+      | some (r, _) => (st, r)
+      | none => (st, "err bad-request")
+  | _ => (st, "err bad-request")
 
-partial def loop (hin : IO.FS.Stream) (hout : IO.FS.Stream) : IO Unit := do
+partial def loop (hin : IO.FS.Stream) (hout : IO.FS.Stream) (st : DrvState) : IO Unit := do
   let line ← hin.getLine
   if line.isEmpty then return ()
   let l := (line.dropEndWhile (fun c => c == '\n' || c == '\r')).toString
-  hout.putStrLn (handleLine l)
-  if l == "flush" then hout.flush
-  loop hin hout
+  let (st', r) := handleLine st l
+  hout.putStrLn r
+  loop hin hout st'
 
 def main : IO Unit := do
   let hin ← IO.getStdin
   let hout ← IO.getStdout
-  loop hin hout
+  loop hin hout {}
   hout.flush
